@@ -3,6 +3,7 @@ from suites.common import reflect
 
 ARCHSETS = [["x86_64"], ["x86_64", "ppc64le"], ["ppc64le"], ["x86_64", "ppc64le", "aarch64"], ["aarch64"], [],
             ["src"], ["x86_64", "src"], ["noarch"], ["x86_64", "nosrc"]]
+WIDE = ["aarch64", "alpha", "armhfp", "i386", "ia64", "mips", "ppc", "ppc64", "ppc64le", "riscv64", "s390", "s390x", "sparc64"]
 TYPES = ["variant", "optional", "addon", "layered-product"]
 
 
@@ -13,8 +14,9 @@ def mkv(vid, uid, vtype, arches, name=None):
 def gen_pool(rng):
     pool = []
     tops = rng.sample(["Server", "Client", "Workstation", "AppStream"], rng.randint(1, 3))
+    wide = rng.random() < 0.15      # at scale: a parent with 13 architectures, children with all of them (and one more)
     for t in tops:
-        ta = rng.choice(ARCHSETS[:4])
+        ta = list(WIDE) if wide else rng.choice(ARCHSETS[:4])
         pool.append(mkv(t, t, "variant", ta))
         for cid in rng.sample(["optional", "HA", "RS", "SAP"], rng.randint(0, 2)):
             k = rng.random()
@@ -24,6 +26,8 @@ def gen_pool(rng):
                 ca = rng.choice(ARCHSETS)                      # possibly foreign (incl. the pseudo-architectures) / empty
             else:
                 ca = ta
+            if wide and rng.random() < 0.7:
+                ca = list(ta) + rng.choice([["x86_64"], ["x86_64"], []])          # "x86_64" is not among WIDE and sorts after all of them
             cuid = "%s-%s" % (t, cid) if rng.random() < 0.85 else rng.choice([cid, "%s_%s" % (t, cid), "X-%s" % cid, t + cid, "%s-%s-%s" % (t[:3], t[3:], cid), "%s-%s-%s" % (t, cid[:2], cid[2:])])
             pool.append(mkv(cid, cuid, rng.choice(["optional", "addon", "variant", "layered-product"]), ca))
             if rng.random() < 0.4:
